@@ -29,6 +29,7 @@ def units(tier, seed):
             out.append({"unit": f"hist-exh-{a}{b}", "kind": "hist_exh", "prefix": [a, b], "maxlen": maxlen, "cost": 2 if q else 10})
     for i in range(4 if q else 16):
         out.append({"unit": f"hist-rand-{i}", "kind": "hist_rand", "count": 150 if q else 1500, "shard": i, "cost": 4 if q else 30})
+    out.append({"unit": "hist-ephemeral", "kind": "hist_ephemeral", "count": 400 if q else 4000, "cost": 4})
     return out
 
 
@@ -233,6 +234,77 @@ def run_unit(ctx, u):
                 err += int((y != x).sum())
             ctx.check(close(ber.compute(), Fraction(err, tot)), "history:compute=reference", "BitErrorRate|long history (>2^24 bits)|history:compute=reference|differs", got=float(ber.compute()), expected=[err, tot])
         ctx.sample({"unit": u["unit"], "histories": u["count"], "max_length": 200})
+        return
+    if kind == "hist_ephemeral":
+        # batches that exist for one call only: (a) a numpy buffer refilled in place and re-wrapped for every call,
+        # (b) batches made inside a helper and dropped on return (the allocator hands the same storage to the next
+        # batch) - anything a metric remembers about "the tensor seen last time" by address or version is stale here
+        import numpy as np
+
+        def gen_batch(g, shape, p):
+            x = torch.randint(0, 2, shape, generator=g).float()
+            y = (x + (torch.rand(shape, generator=g) < p).float()) % 2
+            return x, y
+
+        def feed_update(metrics, g, shape, p):
+            x, y = gen_batch(g, shape, p)
+            for m in metrics:
+                m.update(x, y)
+
+        def feed_oneshot(metric, g, shape, p):
+            x, y = gen_batch(g, shape, p)
+            return float(metric(x, y))
+
+        n = u["count"]
+        for shape in ((8, 6), (3, 12), (1, 6), (4, 33)):
+            bs = BS if shape[1] % BS == 0 else None
+            probs = [0.0 if i % 7 == 0 else (0.4 if i % 5 == 0 else 0.05) for i in range(n)]
+            # ---- (a) refilled numpy buffers
+            ber, bler = BitErrorRate(), BlockErrorRate(block_size=bs)
+            ber1, bler1 = BitErrorRate(), BlockErrorRate(block_size=bs)
+            bx, by = np.zeros(shape, dtype=np.float32), np.zeros(shape, dtype=np.float32)
+            eb = tb = ebl = tbl = 0
+            nprng = np.random.default_rng(rng.getrandbits(32))
+            for i in range(n):
+                bx[...] = nprng.integers(0, 2, shape)
+                by[...] = np.where(nprng.random(shape) < probs[i], 1 - bx, bx)
+                e, t = int((bx != by).sum()), bx.size
+                diff = (bx != by).reshape(shape[0], -1, bs or shape[1]).any(axis=-1)
+                e2, t2 = int(diff.sum()), diff.size
+                eb, tb, ebl, tbl = eb + e, tb + t, ebl + e2, tbl + t2
+                ctx.case("ephemeral-np", shape, i, nontrivial=e > 0)
+                v1, v2 = ber1(torch.from_numpy(bx), torch.from_numpy(by)), bler1(torch.from_numpy(bx), torch.from_numpy(by))
+                ok = close(v1, Fraction(e, t)) and close(v2, Fraction(e2, t2))
+                ctx.check(ok, "ber:one-shot", "metrics|refilled numpy buffer|ber:one-shot|differs", shape=list(shape), call=i, ber=float(v1), bler=float(v2), expected=[[e, t], [e2, t2]])
+                ber.update(torch.from_numpy(bx), torch.from_numpy(by))
+                bler.update(torch.from_numpy(bx), torch.from_numpy(by))
+            ok = close(ber.compute(), Fraction(eb, tb)) and close(bler.compute(), Fraction(ebl, tbl))
+            ctx.check(ok, "history:compute=reference", "metrics|refilled numpy buffer|history:compute=reference|differs", shape=list(shape), updates=n, ber=float(ber.compute()), bler=float(bler.compute()), expected=[[eb, tb], [ebl, tbl]])
+            # ---- (b) generated in a helper and dropped: reference from a first pass over the same generator stream
+            gseed = rng.getrandbits(32)
+            g = torch.Generator().manual_seed(gseed)
+            refs = []
+            eb = tb = ebl = tbl = 0
+            for i in range(n):
+                x, y = gen_batch(g, shape, probs[i])
+                e, t = ref_ber(x, y)
+                e2, t2 = ref_bler(x, y, bs)
+                refs.append((e, t, e2, t2))
+                eb, tb, ebl, tbl = eb + e, tb + t, ebl + e2, tbl + t2
+            del x, y
+            g = torch.Generator().manual_seed(gseed)
+            ber, bler = BitErrorRate(), BlockErrorRate(block_size=bs)
+            for i in range(n):
+                feed_update((ber, bler), g, shape, probs[i])
+            ctx.case("ephemeral-helper", shape, "stream")
+            ok = close(ber.compute(), Fraction(eb, tb)) and close(bler.compute(), Fraction(ebl, tbl))
+            ctx.check(ok, "history:compute=reference", "metrics|batches dropped after each update|history:compute=reference|differs", shape=list(shape), updates=n, ber=float(ber.compute()), bler=float(bler.compute()), expected=[[eb, tb], [ebl, tbl]])
+            for metric, idx, nm in ((BitErrorRate(), 0, "BitErrorRate"), (BlockErrorRate(block_size=bs), 2, "BlockErrorRate")):
+                g = torch.Generator().manual_seed(gseed)
+                wrong = [(i, v, refs[i][idx : idx + 2]) for i in range(n) for v in [feed_oneshot(metric, g, shape, probs[i])] if not close(v, Fraction(refs[i][idx], refs[i][idx + 1]))]
+                ctx.case("ephemeral-helper", shape, nm)
+                ctx.check(not wrong, "ber:one-shot" if idx == 0 else "bler:one-shot", f"{nm}|batches dropped after each call|{'ber' if idx == 0 else 'bler'}:one-shot|differs", shape=list(shape), wrong_calls=len(wrong), first=wrong[:2])
+        ctx.sample({"unit": u["unit"], "calls_per_shape": n, "shapes": [[8, 6], [3, 12], [1, 6], [4, 33]]})
         return
     if kind == "partition":
         for trial in range(6 if q else 40):
